@@ -168,7 +168,11 @@ def build_profile(chroms, sd, wpat, layout):
             cols["log2"].append(value)
             cols["depth"].append(100.0 * 2.0**value)
             cols["weight"].append(w[i])
-    return CNA(pd.DataFrame(cols), {"sample_id": "S"})
+    df = pd.DataFrame(cols)
+    if chroms[0]["arr"].startswith("M"):
+        # the modular-inverse arrangements come as a filtered array would: row labels 1..n (a longer table minus its first row)
+        df.index = range(1, len(df) + 1)
+    return CNA(df, {"sample_id": "S"})
 
 
 def next_arrangement(names, start, j):
@@ -256,6 +260,7 @@ def run_one(ctx, method, chroms, sd, wpat, layout, sub):
         nontrivial=stepped,
     )
     # strata: what the alphabet reaches
+    ctx.stratum("row-index-" + ("shifted" if chroms[0]["arr"].startswith("M") else "default"))
     ctx.stratum("chromosomes-%d" % len(chroms))
     ctx.stratum("weights-" + wpat)
     ctx.stratum("layout-" + layout)
